@@ -15,6 +15,12 @@ SUFFIX_JUNK = PREFIX_JUNK + ["/* open", "/* open\n", '"open', "'open", 'def seco
 WEIGHT_BREAKS = [".5", "5.", "-1", "- 1", "1e5", "1.5.2", "+1", "1,5", "0x1", "1_0", "", "(1)", '"1"', "x"]
 
 
+NUMBER_FORMS = ["1_0", "0x1F", "0b11", "0o7", "1e3", "1E3", "1.5e3", "1.", ".5", "1..5", "1.5.", "01.5.0", "1,5", "+1", "1j", "1L", "1f",
+                "0.5f", "1/2", "50%", "$5", "1 000", "NaN", "inf", "-inf", "1.5e", "0x", "\u0661", "\uff11", "1\u00b2"]
+STRING_FORMS = ['r"x"', 'f"x"', 'b"x"', 'u"x"', '"""x"""', "\'\'\'x\'\'\'", "`x`", '"x', "x\"", "'x", '"a\\"b"', "'a\\'b'", '"a""b"', "'a''b'",
+                '"a\nb"', "\u201cx\u201d", "\u2018x\u2019", "<<x>>", '"x"s', 's"x"', '("x")', '"x" "y"', '"x"+"y"']
+
+
 def single_mutations(slices):
     """Exhaustive single mutations of one token-slice list.  yields (kind, detail, text)"""
     n = len(slices)
@@ -25,6 +31,16 @@ def single_mutations(slices):
         if i + 1 < n and slices[i] != slices[i + 1]:
             yield "swap", i, J(slices[:i] + [slices[i + 1], slices[i]] + slices[i + 2:])
         yield "truncate", i, J(slices[:i])
+        tok = slices[i]
+        if tok in ("def", "salt", "splitters", "if", "else", "weighted", "return", "and", "or", "not", "in") or tok.startswith(("else", "not ")):
+            for v in {tok.upper(), tok.title(), tok[0].upper() + tok[1:], tok + "_", tok + "s"} - {tok}:
+                yield "keyword-case", (i, v), J(slices[:i] + [v] + slices[i + 1:])
+        if tok[:1].isdigit():
+            for v in NUMBER_FORMS:
+                yield "number-format", (i, v), J(slices[:i] + [v] + slices[i + 1:])
+        if tok[:1] in "\"'":
+            for v in STRING_FORMS:
+                yield "string-format", (i, v), J(slices[:i] + [v] + slices[i + 1:])
         if slices[i] in OP_BREAKS:
             for b in OP_BREAKS[slices[i]]:
                 yield "break-operator", (i, b), J(slices[:i] + [b] + slices[i + 1:])
